@@ -20,6 +20,7 @@ KF_KINDS = {
     "tz": "schema-timezone-pattern",
     "init-false": "schema-init-false-field",
     "union-pack": "union-speculative-packer",
+    "ann-alias": "schema-annotated-alias-ignored",
 }
 
 _modn = [0]
@@ -257,6 +258,9 @@ class Sites:
                 key = f["alias"] if f["alias"] is not None else f["name"]
                 if not f["init"]:
                     self.out.append((path, "init-false"))
+                if f.get("alias_ann") is not None and f.get("alias_meta") is None and \
+                        f["alias_ann"] != (f["alias_cfg"] if f.get("alias_cfg") is not None else f["name"]):
+                    self.out.append((path, "ann-alias"))
                 self.walk(f["type"], getattr(v, f["name"]), path + (key,), e2)
             return
         if k == "nt":
@@ -295,7 +299,7 @@ class Sites:
 
 
 VALIDATOR_OF = {"flag": {"enum", "const"}, "set-collision": {"uniqueItems"}, "tz": {"pattern"},
-                "init-false": {"additionalProperties"}}
+                "init-false": {"additionalProperties"}, "ann-alias": {"additionalProperties", "required"}}
 
 
 def explain(err, sites) -> set:
@@ -317,7 +321,7 @@ def explain(err, sites) -> set:
             if "propertyNames" in sp:
                 kinds.add(kind)
         elif err.validator in VALIDATOR_OF[kind]:
-            if kind == "init-false" and "propertyNames" in sp:
+            if kind in ("init-false", "ann-alias") and "propertyNames" in sp:
                 continue
             kinds.add(kind)
     return kinds
@@ -432,9 +436,17 @@ def run_case(ctx, tbl, root, vspecs, src, probe):
                 continue
             got = ds.get("required", [])
             if got != exp_req or list(ds.get("properties", {})) != exp_props:
-                ctx.fail(f"'required' of {d['clsname']} is {got}, fields without default are {exp_req}",
+                # known finding: the schema ignores an Annotated Alias that decides the serialized key
+                def skey(f):
+                    return f["schema_alias"] if f.get("schema_alias") is not None else f["name"]
+                kf_req = [skey(f) for f in d["fields"] if f["init"] and f["default"] is None]
+                kf_props = [skey(f) for f in d["fields"] if f["init"]]
+                ann = got == kf_req and list(ds.get("properties", {})) == kf_props
+                ctx.fail(f"'required'/'properties' of {d['clsname']} are {got}/{list(ds.get('properties', {}))}, serialized keys of the fields "
+                         f"without default are {exp_req} (all: {exp_props})",
                          {**base, "check": "required", "class": pn, "observed": {"required": got, "properties": list(ds.get('properties', {}))},
-                          "expected": {"required": exp_req, "properties": exp_props}}, {"kind": "required-mismatch"})
+                          "expected": {"required": exp_req, "properties": exp_props}},
+                         {"kind": KF_KINDS["ann-alias"] if ann else "required-mismatch"})
             n += 1
 
         # ---- every value validates under every combo -----------------------------
@@ -500,6 +512,13 @@ FIXED_CASES = [
     ("tuple unpack middle", "", "Tuple[int, Unpack[Tuple[str, ...]], bool]", ["(1, True)", "(1, 'a', 'b', False)"]),
     ("flag", "class F(enum.Flag):\n    A = 1\n    B = 2\n", "F", ["F.A", "F.A | F.B"]),
     ("int keys", "", "Dict[int, str]", ["{}", "{1: 'a'}"]),
+    ("annotated alias", "@dataclass\nclass B(DataClassDictMixin):\n    x: Annotated[int, Alias('ann_x')]\n    class Config(BaseConfig):\n"
+                        "        serialize_by_alias = True\n", "B", ["B(1)"]),
+    ("alias sources", "@dataclass\nclass A3(DataClassDictMixin):\n    y: Annotated[int, Alias('ann_y')] = field(metadata=field_options(alias='meta_y'))\n"
+                      "    w: int = field(default=1, metadata=field_options(alias='meta_w'))\n    class Config(BaseConfig):\n"
+                      "        serialize_by_alias = True\n        aliases = {'y': 'cfg_y', 'w': 'cfg_w'}\n", "A3", ["A3(2)", "A3(2, 3)"]),
+    ("literal bool/int", "class LE(enum.IntEnum):\n    HI = 1\n", "Tuple[Literal[0, 1, False, True], Literal[True, 1], Literal[LE.HI, True, 'a']]",
+     ["(False, 1, True)", "(0, True, LE.HI)", "(True, 1, 'a')"]),
     ("same name", "def mk(t):\n    @dataclass\n    class P(DataClassDictMixin):\n        v: t\n    return P\nP1 = mk(int)\nP2 = mk(str)\n"
                   "@dataclass\nclass HP(DataClassDictMixin):\n    a: P1\n    b: P2\n", "HP", ["HP(P1(1), P2('s'))"]),
 ]
@@ -836,6 +855,64 @@ def model_part(ctx: vlib.Ctx):
         ctx.count(n=len(cases))
 
 
+def alias_part(ctx):
+    """field keys: K6A (schema side) against K4 (serializer side); (T) validation of the K6A translation"""
+    ctx.theorems("props/C06_alias.vo", ["C06_schema_alias_spec", "C06_alias_agrees_partial", "C06_annotated_alias_refuted"],
+                 kernels=["K4", "K6A"])
+    if not ctx.kernel_report.get("K6A", {}).get("ok"):
+        return
+    from mashumaro.jsonschema import build_json_schema
+    r = ctx.rng
+    cases, descr = [], []
+    names = ["x", "id", "unit_price", "é", "a b", "type"]
+    vals = ["X", "itemId", "unitPrice", "k-1", "$ref", "x", "ü"]
+    for _ in range(ctx.budget(60, 400)):
+        fname = r.choice(names[:3]) + str(r.randrange(3))
+        meta = r.choice(vals) + "m" if r.random() < 0.5 else None
+        cfg = r.choice(vals) + "c" if r.random() < 0.5 else None
+        ann = r.choice(vals) + "a" if r.random() < 0.3 else None
+        other = r.choice(vals) + "o" if r.random() < 0.5 else None      # Config.aliases entry of another field
+        ts = "int" if ann is None else f"Annotated[int, Alias({ann!r})]"
+        fsrc = f"    {fname}: {ts}" + (f" = field(metadata=field_options(alias={meta!r}))" if meta is not None else "")
+        al = {}
+        if other is not None:
+            al["zz"] = other
+        if cfg is not None:
+            al[fname] = cfg
+        src = (G.PRELUDE2 + "@dataclass\nclass K(DataClassDictMixin):\n" + fsrc + "\n    class Config(BaseConfig):\n"
+               f"        serialize_by_alias = True\n        aliases = {al!r}\nROOT = K\n")
+        try:
+            m = load_module(src)
+        except Exception as e:
+            ctx.not_shown("generator produced an invalid program", f"{type(e).__name__}: {e}\n{src[-600:]}")
+            continue
+        try:
+            key = next(iter(build_json_schema(m.K).to_dict()["properties"]))
+        except Exception as e:
+            ctx.hist("skipped", "alias-schema:" + type(e).__name__)
+            continue
+        finally:
+            unload_module(m)
+        md = "(KDict [])" if meta is None else f"(KDict [(KStr \"alias\", KStr {vlib.coq_str(meta)})])"
+        alt = vlib.coq_list([f"({vlib.coq_str(k)}, {vlib.coq_str(v)})" for k, v in al.items()])
+        cases.append(f"({md}, {alt}, {vlib.coq_str(fname)}, {vlib.coq_str(key)})")
+        descr.append(f"{fname}: meta={meta} ann={ann} cfg={cfg} -> {key}")
+        ctx.hist("alias_sources", "+".join(x for x, y in (("meta", meta), ("ann", ann), ("cfg", cfg)) if y is not None) or "none")
+    okf = ("fun c => match c with (md, al, fname, exp) => match schema_alias md (enc_aliases al) (KStr fname) with "
+           "Ok (KStr s) => String.eqb s exp | _ => false end end")
+    bad, log = vlib.coq_bad_idx("c06_k6a", "PyK_alias KeyModel KeyImpl", "From VerifGen Require Import K6A.", "", cases, okf,
+                                "kv * list (string * string) * string * string", shard=500, needs=["gen/K6A.vo", "theories/KeyImpl.vo"])
+    name = "K6A-translation-vs-python(Instance.alias)"
+    if bad is None:
+        ctx.correspondence(name, len(cases), -1, log)
+        ctx.not_shown("translation validation K6A", log)
+    else:
+        ctx.correspondence(name, len(cases), len(bad), str([descr[i] for i in bad[:8]]))
+        if bad:
+            ctx.not_shown("translation validation K6A", f"fields {[descr[i] for i in bad[:8]]}")
+    ctx.count(n=len(cases))
+
+
 def fixed_part(ctx):
     """minimal inputs of D11a and of the known findings, always run"""
     for descr, decl, rootsrc, vals in FIXED_CASES:
@@ -865,10 +942,11 @@ def run_fixed(ctx, descr, src, vals):
                 ctx.count(("fixed", descr, vsrc, dl, ar))
                 if errs:
                     e = errs[0]
-                    kind = {"flag": "flag", "int keys": "nonstr-key", "same name": "bare-name"}.get(descr)
+                    kind = {"flag": "flag", "int keys": "nonstr-key", "same name": "bare-name", "annotated alias": "ann-alias"}.get(descr)
                     ok_kf = (kind == "flag" and e.validator == "enum" and vsrc == "F.A | F.B") or \
                             (kind == "nonstr-key" and "propertyNames" in list(e.absolute_schema_path) and vsrc == "{1: 'a'}") or \
-                            (kind == "bare-name" and ar)
+                            (kind == "bare-name" and ar) or \
+                            (kind == "ann-alias" and e.validator in ("additionalProperties", "required"))
                     ctx.fail(f"{descr}: {vsrc} rejected: {e.message[:100]}",
                              {"entry": "fixed", "source": src, "dialect": dl, "all_refs": ar, "check": "validate", "value": vsrc,
                               "document": doc, "schema": s, "observed": e.message[:200], "expected": "no validation error"},
@@ -892,6 +970,7 @@ def run(ctx: vlib.Ctx):
     ]
     ctx.trusted.append("jsonschema 4.x Draft202012Validator as the standard validator (oracle; jvalid is differentially checked against it)")
     k6_part(ctx)
+    alias_part(ctx)
     model_part(ctx)
     fixed_part(ctx)
     n = oracle(ctx, ctx.budget(250, 2000), 4)
